@@ -2336,6 +2336,33 @@ fn c07_c08(tier: Tier, pid: &str) -> i32 {
     }
     let name = c.probe.name.clone();
     let dir = c.probe.dir();
+    // text that looks like a tag but is not one (`<br/>`, `<a href="x">`, `1 < 2`), standing before a real component:
+    // the component is still found, the look-alike stays text
+    let mut tags_case = None;
+    if pid == "C08" {
+        let values: Vec<(&str, &str, &str)> = vec![
+            ("t0", "1 < 2 et 3 > 2 <b>x</b>", "1 < 2 et 3 > 2 <b>x</b>"),
+            ("t1", "<br/> then <b>x</b>", "<br/> then <b>x</b>"),
+            ("t2", "<a href=\\\"x\\\"> then <b>x</b>", "<a href=\"x\"> then <b>x</b>"),
+            ("t3", "</x> then <b>x</b> end", "</x> then <b>x</b> end"),
+            ("t4", "a <1> b <b>x</b>", "a <1> b <b>x</b>"),
+            ("t5", "<b>x</b> then 1 < 2", "<b>x</b> then 1 < 2"),
+        ];
+        let mut tp = Project::new(Config::simple("en", &["en", "fr"]));
+        for l in ["en", "fr"] {
+            tp.set_file(None, l, values.iter().map(|(k, v, _)| (k.to_string(), Val::RawJson(format!("\"{v}\"")))).collect());
+        }
+        let mut tc = Case::new(&format!("c08_{}_tags", tier.name()), tp);
+        for (k, _, want) in &values {
+            for l in ["en", "fr"] {
+                tc.add(format!("td_string!({}, {k}, <b> = \"b\").to_string()", locale_variant(l)), format!("td_string {k} @{l} (a tag look-alike next to a component)"), want.to_string());
+            }
+        }
+        tags_case = Some(tc);
+    }
+    if let Some(tc) = tags_case {
+        let _ = execute_reporting(&rep, pid, vec![tc]);
+    }
     if !execute_reporting(&rep, pid, vec![c]).is_empty() {
         // the crate holding load_locales!() does not compile at all (reported above): no bin of it can tell anything
         let mut cov = serde_json::Map::new();
